@@ -1,4 +1,4 @@
-/* D23 (C03, known): S : S S # s (0 1) | 'a' # 0 on aaaaa has 14 derivations with 14 different
+/* D23 (C03, fixed): S : S S # s (0 1) | 'a' # 0 on aaaaa has 14 derivations with 14 different
    translations; the returned DAG denotes fewer. Counts the denoted trees. */
 #include "wcommon.h"
 static long count (struct yaep_tree_node *n)
